@@ -1,5 +1,5 @@
 #!/usr/bin/env python3
-# usage: seedprep.py <round-number>   - creates /tmp/w<r>-Cnn worktrees of /repo HEAD and /tmp/seed<r>/Cnn/prompt.txt
+# usage: seedprep.py <round-number> [Cnn ...]   - creates /tmp/w<r>-Cnn worktrees of /repo HEAD and /tmp/seed<r>/Cnn/prompt.txt
 import json,os,re,glob,subprocess,sys
 r=sys.argv[1]
 EXTRA=("This time the change should be one of the harder kinds: (a) TWO cooperating edits at different sites that each look harmless alone (e.g. a producer and a consumer that now disagree about a convention, a cache plus a missing invalidation, an index shifted in one place and compensated wrongly in another), or (b) something that only manifests after a multi-step sequence of calls / a particular combination of command-line flags / a particular interleaving of goroutines, or (c) a corner of the input space that is easy to overlook. "
@@ -9,7 +9,9 @@ props={}
 for l in open('/verif/properties.jsonl'):
     p=json.loads(l); props[p['id']]=p
 tmpl=open('/verif/tools/seedprompt.tmpl').read()
+only=set(sys.argv[2:])
 for cid,p in props.items():
+    if only and cid not in only: continue
     prev=[]
     for d in sorted(glob.glob('/verif/seeded/*')):
         b=os.path.basename(d)
